@@ -24,7 +24,9 @@ Local Open Scope Z_scope.
 (* ---- the implementation's parse of the spec's tree: unary over an unparenthesised power ---- *)
 Fixpoint reparse (e : expr) : expr :=
   match e with
-  | ELit _ _ | ELitF _ _ | EVar _ | ESVar _ => e
+  | ELit _ _ | ELitF _ _ | EVar _ | ESVar _ | EGlob _ _ => e
+  | ECall k t d p q body a b =>
+      ECall k t d p q (reparse body) (reparse a) (match b with Some e => Some (reparse e) | None => None end)
   | EParen a => EParen (reparse a)
   | ENeg a => match reparse a with EPow x y => EPow (ENeg x) y | a' => ENeg a' end
   | ENot a => match reparse a with EPow x y => EPow (ENot x) y | a' => ENot a' end
@@ -100,6 +102,25 @@ Definition lit_code (eff : ty) (z : Z) : option (list instr) :=
   | TF _ => None      (* integer literal under a float hint: not modelled (needs float(z)) *)
   end.
 
+(* expression/compiler.go emitLiteralValue: a constant of type t (global constant, default value) *)
+Definition const_code (t : ty) (z : Z) : instr :=
+  match t with
+  | TI it => IConst (regw it) (sgn (regw it) (z mod wmod (regw it)))
+  | TF f => FConst f z
+  end.
+
+(* the callee addresses its two parameters as locals 0 and 1 *)
+Fixpoint ren_i (p q : nat) (i : instr) : instr :=
+  let rn n := if Nat.eqb n p then 0%nat else if Nat.eqb n q then 1%nat else n in
+  match i with
+  | LGet n => LGet (rn n)
+  | LSet n => LSet (rn n)
+  | If bt th el => If bt (map (ren_i p q) th) (match el with Some e => Some (map (ren_i p q) e) | None => None end)
+  | Block b => Block (map (ren_i p q) b)
+  | Loop b => Loop (map (ren_i p q) b)
+  | _ => i
+  end.
+
 (* identifier.go emitZeroValue *)
 Definition zero_code (t : ty) : instr :=
   match t with TI it => IConst (regw it) 0 | TF f => FConst f 0 end.
@@ -126,6 +147,27 @@ Section Expr.
         match nth_error tys i with
         | Some t => Some ([IConst W32 (Z.of_nat i); zero_code t; CallLoad t (length tys)], t)
         | None => None
+        end
+    (* identifier.go KindGlobalConstant: the value is inlined with its declared type *)
+    | EGlob t z => Some ([const_code t z], t)
+    (* compiler.go compileFunctionCallExpr: each argument with the parameter type as hint (and a
+       cast if its type differs), emitLiteralValue for an omitted trailing argument, call *)
+    | ECall k t d p q body a b =>
+        match cexpr (Some t) a,
+              (match b with
+               | Some e => match cexpr (Some t) e with
+                           | Some (cb, tb) => Some (if ty_eqb tb t then cb else cb ++ cast_code tb t)
+                           | None => None
+                           end
+               | None => Some [const_code t d]
+               end),
+              cexpr None body with
+        | Some (ca, ta), Some cb, Some (cbody, tbody) =>
+            Some ((if ty_eqb ta t then ca else ca ++ cast_code ta t) ++ cb ++
+                  [CallFn k (vt_of t)
+                          (map (ren_i p q) (if ty_eqb t tbody then cbody else cbody ++ cast_code tbody t) ++ [Return])],
+                  t)
+        | _, _, _ => None
         end
     | EParen a => cexpr hint a
     | ENeg a =>
@@ -420,6 +462,31 @@ Definition compile (f : func) : option wfunc :=
       Some {| w_params := map vt_of (f_params f);
               w_locals := map vt_of (map snd (decls_block (f_body f)));
               w_result := vt_of (f_ret f);
-              w_body := c |}
+              w_body := c;
+              w_pad := length (f_virt f) |}
   | None => None
+  end.
+
+(* a helper  func h(x T, y T = d) T { return body }  on its own *)
+Definition compile_helper (tys : list ty) (h : ty * Z * nat * nat * expr) : option wfunc :=
+  let '(t, _, p, q, body) := h in
+  match cexpr_to tys None body t with
+  | Some c => Some {| w_params := [vt_of t; vt_of t]; w_locals := []; w_result := vt_of t;
+                      w_body := map (ren_i p q) c ++ [Return]; w_pad := 0 |}
+  | None => None
+  end.
+
+(* the module's functions in index order: the helpers (declared first), then f *)
+Definition compile_module (f : func) : option (list wfunc) :=
+  match compile f with
+  | None => None
+  | Some w =>
+      (fix go (hs : list (ty * Z * nat * nat * expr)) : option (list wfunc) :=
+         match hs with
+         | [] => Some [w]
+         | h :: r => match compile_helper (f_tys f) h, go r with
+                     | Some wh, Some ws => Some (wh :: ws)
+                     | _, _ => None
+                     end
+         end) (f_helpers f)
   end.
